@@ -26,7 +26,6 @@ import (
 	"github.com/nspcc-dev/neo-go/pkg/config"
 	"github.com/nspcc-dev/neo-go/pkg/core/block"
 	"github.com/nspcc-dev/neo-go/pkg/core/native/nativehashes"
-	"github.com/nspcc-dev/neo-go/pkg/core/native/noderoles"
 	"github.com/nspcc-dev/neo-go/pkg/core/state"
 	"github.com/nspcc-dev/neo-go/pkg/core/transaction"
 	"github.com/nspcc-dev/neo-go/pkg/smartcontract/trigger"
@@ -243,8 +242,8 @@ func (c *caseRun) run() {
 		pubs = append(pubs, hx.Hex(c.net.Pub(i).Bytes()))
 	}
 	o.Line(fmt.Sprintf("net %d %d %d %s", csize, vcount, len(pubs), strings.Join(pubs, " ")), "ok")
-	// initial contents of the settings storage (genesis Initialize of the natives is not modelled)
-	o.Line("init-settings "+strings.ReplaceAll(settingsObs(w, c.a.BC), ",", " "), "ok")
+	// protocol configuration the genesis values of the settings come from (the model computes them)
+	o.Line(fmt.Sprintf("proto %d %d %d", mtb, mtb/2, cfgA.Genesis.TimePerBlock.Milliseconds()), "ok")
 	// genesis observation
 	o.Line("genesis", abstractObs(w, c.a.BC)+" | "+abstractObs(w, c.b.BC))
 
@@ -285,6 +284,13 @@ func (c *caseRun) run() {
 				if p := c.genOp(); p != nil {
 					ops = append(ops, p)
 				}
+				for _, q := range w.follow { // same-block follow-ups of the operation just generated
+					if q != nil {
+						ops = append(ops, q)
+						o.Count("guarded-follow-up-in-same-block")
+					}
+				}
+				w.follow = nil
 			}
 		}
 		// a payer that cannot afford the transaction makes no transaction
@@ -406,6 +412,13 @@ func (c *caseRun) run() {
 				o.Count("result:out-of-gas")
 				if p.model {
 					line += " oog"
+				}
+			}
+			if guardedKinds[p.kind] {
+				if p.result == "fault" {
+					o.Count("guarded:" + p.kind + ":fault:" + faultClass(&aers[0]))
+				} else {
+					o.Count("guarded:" + p.kind + ":halt")
 				}
 			}
 			if !p.model {
@@ -865,26 +878,11 @@ func (c *caseRun) genOp() *op {
 			return w.opBlock(blocked[r.Intn(len(blocked))], true, r.Chance(1, 15))
 		}
 		return w.opBlock(c.net.Account(r.Intn(nk)), true, false)
-	case 8:
-		roles := []noderoles.Role{noderoles.StateValidator, noderoles.Oracle, noderoles.NeoFSAlphabet, noderoles.P2PNotary}
-		n := 1 + r.Intn(min(3, nk))
-		idx := map[int]bool{}
-		for len(idx) < n {
-			idx[r.Intn(nk)] = true
+	case 8, 9: // the committee setters whose guards the model predicts
+		if r.Chance(1, 12) {
+			return w.opMinDeploymentFee()
 		}
-		var l []int
-		for i := range idx {
-			l = append(l, i)
-		}
-		sort.Ints(l)
-		return w.opDesignate(roles[r.Intn(len(roles))], l)
-	case 9:
-		if r.Chance(1, 2) {
-			return w.opPolicyMisc(r.Intn(5))
-		}
-		which := r.Intn(4)
-		v := []int64{int64(1 + r.Intn(10*100000000)), int64(1 + r.Intn(2000_0000_0000)), int64(1 + r.Intn(8)), int64(1 + r.Intn(1_0000_0000))}[which]
-		return w.opNativeSetting(which, v)
+		return w.opGuarded()
 	case 16: // whitelisted fees of generated contracts
 		for d := 0; d < len(w.slots); d++ {
 			si := (r.Intn(len(w.slots)) + d) % len(w.slots)
